@@ -52,7 +52,7 @@ func (p *HPred) sql() string {
 	switch p.K {
 	case "all":
 		return "1 = 1"
-	case "ids", "key":
+	case "ids", "key", "vkey":
 		parts := []string{}
 		for _, i := range p.IDs {
 			parts = append(parts, fmt.Sprint(i))
@@ -93,7 +93,7 @@ func (p *HPred) g() string {
 	switch p.K {
 	case "all":
 		return "HAll"
-	case "ids", "key":
+	case "ids", "key", "vkey":
 		return lib.App("HIds", lib.ZList(p.IDs))
 	case "mod":
 		return lib.App("HMod", lib.Z(p.A), lib.Z(p.B))
@@ -146,7 +146,8 @@ func genHPred(r *lib.Rng, depth int, ids []int64) *HPred {
 	switch r.Intn(6) {
 	case 5:
 		if depth == 2 { // top level only: the condition is the key of the model value
-			return &HPred{K: "key", IDs: []int64{lib.Pick(r, ids)}}
+			// through Model(key) with an empty value, or as the key of the value itself
+			return &HPred{K: lib.Pick(r, []string{"key", "vkey"}), IDs: []int64{lib.Pick(r, ids)}}
 		}
 		return &HPred{K: "ids", IDs: []int64{lib.Pick(r, ids)}}
 	case 0:
@@ -268,6 +269,11 @@ func (e *env) runHist(in Input, o *Obs) {
 				m := whr.NewSoftOne(in.Variant)
 				reflect.ValueOf(m).Elem().FieldByName("ID").SetInt(op.P.IDs[0])
 				r = base.Model(m).Delete(whr.NewSoftOne(in.Variant))
+			} else if op.P.K == "vkey" {
+				// the value given to Delete carries the key
+				m := whr.NewSoftOne(in.Variant)
+				reflect.ValueOf(m).Elem().FieldByName("ID").SetInt(op.P.IDs[0])
+				r = base.Delete(m)
 			} else {
 				r = op.P.apply(base).Delete(whr.NewSoftOne(in.Variant))
 			}
@@ -275,7 +281,7 @@ func (e *env) runHist(in Input, o *Obs) {
 			ob = []int64{r.RowsAffected}
 		case "update", "uupdate":
 			var r *gorm.DB
-			if op.P.K == "key" {
+			if op.P.K == "key" || op.P.K == "vkey" {
 				m := whr.NewSoftOne(in.Variant)
 				reflect.ValueOf(m).Elem().FieldByName("ID").SetInt(op.P.IDs[0])
 				r = base.Model(m).Update("mark", op.V)
